@@ -4,3 +4,6 @@ package bchutil
 
 // VerifPolyMod exposes the CashAddr remainder function to the syndrome model (C03).
 func VerifPolyMod(v []byte) uint64 { return polyMod(v) }
+
+// VerifVerifyChecksum exposes the CashAddr acceptance test itself (C03 acceptance sweep).
+func VerifVerifyChecksum(prefix string, payload []byte) bool { return verifyChecksum(prefix, payload) }
